@@ -5,6 +5,7 @@ import PqModel.Compare
 import PqModel.MergeRefine
 import PqModel.MergeZero
 import PqModel.MergeRetry
+import PqModel.MergeShape
 
 namespace Driver.Ops.C09
 open Driver PqModel.Merge PqModel.Compare
@@ -67,12 +68,42 @@ def parseTarget? (idx : Nat) (s : String) : Option PqModel.Refine.Target :=
     | none => none
     | some n =>
       let il := rest.contains "I"
-      let rest := rest.filter (fun x => x != "I")
+      let dr := rest.contains "D"
+      let rest := rest.filter (fun x => x != "I" && x != "D")
       let cols := rest.filter (fun x => !x.startsWith "F")
       let firsts := rest.filter (fun x => x.startsWith "F")
       match cols.mapM (parseList? parsePage?), firsts.mapM (fun x => parseList? parseNat? (x.drop 1).toString) with
-      | some cols, some fr => some { idx := idx, numRows := n, cols := cols, firstRows := fr.headD [], interleaved := il }
+      | some cols, some fr => some { idx := idx, numRows := n, cols := cols, firstRows := fr.headD [], interleaved := il, dropsRows := dr }
       | _, _ => none
+
+/-- shapes in prefix form, tokens separated by `,`: `L` leaf, `E` empty row group, `P` plain `*rowGroup`, `M<drop>:<n>` merged with `n` members,
+    `S<drop>:<n>` segments, `U:<n>` multi, `D` dedup, `R` range, `C` converted. Fuel = number of tokens. -/
+def parseShape : Nat → List String → Option (PqModel.Shape.Shape Unit × List String)
+  | 0, _ => none
+  | fuel + 1, tok :: rest =>
+    let many (n : Nat) : Option (List (PqModel.Shape.Shape Unit) × List String) :=
+      (List.range n).foldlM (fun (acc : List (PqModel.Shape.Shape Unit) × List String) _ =>
+        (parseShape fuel acc.2).map (fun r => (acc.1 ++ [r.1], r.2))) ([], rest)
+    if tok == "L" then some (.leaf [], rest)
+    else if tok == "E" then some (.empty, rest)
+    else if tok == "P" then some (.plain [], rest)
+    else if tok == "D" then (parseShape fuel rest).map (fun r => (.dedup r.1, r.2))
+    else if tok == "R" then (parseShape fuel rest).map (fun r => (.range r.1 0 0, r.2))
+    else if tok == "C" then (parseShape fuel rest).map (fun r => (.converted r.1, r.2))
+    else
+      match tok.splitOn ":" with
+      | [k, n] =>
+        match parseNat? n with
+        | none => none
+        | some n =>
+          if k == "M0" then (many n).map (fun r => (.merged false r.1, r.2))
+          else if k == "M1" then (many n).map (fun r => (.merged true r.1, r.2))
+          else if k == "S0" then (many n).map (fun r => (.segments false r.1, r.2))
+          else if k == "S1" then (many n).map (fun r => (.segments true r.1, r.2))
+          else if k == "U" then (many n).map (fun r => (.multi r.1, r.2))
+          else none
+      | _ => none
+  | _ + 1, [] => none
 
 def showRow (r : Row) : String := s!"{r.inp}:{r.seq}"
 def showBatch (b : List Row) : String := showList showRow b
@@ -126,6 +157,14 @@ def handle (toks : List String) : Option String :=
       let plan := PqModel.Refine.planOf (strict == "1") specs ts
       s!"ok {showList (fun (x : Nat × Nat) => s!"{x.1}:{x.2}") plan}"
     | _, _ => "bad-op"
+  | ["merge.shape", sh] => some <|
+    -- `ok <interleaves> <dropsRows> <readsChunksInOrder>` of a row-group tree (MergeShape.lean)
+    let toks := sh.splitOn ","
+    match parseShape (toks.length + 1) toks with
+    | some (s, []) =>
+      let b (x : Bool) : String := if x then "1" else "0"
+      s!"ok {b (PqModel.Shape.interleaves s)} {b (PqModel.Shape.dropsRows s)} {b (PqModel.Shape.readsChunksInOrder s)}"
+    | _ => "bad-op"
   | ["merge.cmp", specs, a, b] => some <|
     match parseList? parseSpec? specs, parseKeyRow? a, parseKeyRow? b with
     | some specs, some a, some b => s!"ok {cmpRows specs a b}"
